@@ -90,6 +90,7 @@ fn main() {
         "C15" => checks::c15::run(&tier, replay),
         "C16" => checks::c16::run(&tier, replay),
         "C18" => checks::c18::run(&tier, replay),
+        "C11" => checks::c11::run(&tier, replay),
         "C19" => checks::c19::run(&tier, replay),
         "C02" => checks::c02::run(&tier, replay),
         "C20" => checks::c20::run(&tier, replay),
